@@ -16,6 +16,9 @@ FailedC04(r) ==
     \cup Clause("single_root_first", d.hdr.roots = 1)
     \cup Clause("decodes_to_same_dag", IsoVia(src, d.heap, r.map) /\ Onto(r.map, Len(d.heap)) /\ r.map[r.root] = d.roots[1])
     \cup Clause("no_stored_hashes", d.withhashes = {})
+    \* small bags: what was emitted hashes (by the specification's own SHA-256, from the DECODED content) to the hash the root cell reports
+    \cup Clause("emitted_bag_is_not_the_cell_that_was_hashed",
+                 Has(r, "rhash") => r.rhash = C!TopHash(d.heap, C!InfoAll(d.heap), d.roots[1]))
 
 \* ---- C03: record [op = "roundtrip", src, root, parsed (heap), proot, map (parsed cell -> src cell), rhash_eq] or [err]
 FailedC03(r) ==
